@@ -451,9 +451,15 @@ func (s *Store) ServiceUsage(ws memdb.WatchSet, tenantUsage bool) (uint64, struc
 		Nodes:                    nodes.Count,
 	}
 
+	// The result counts nodes too, so its index has to cover the nodes row.
+	idx := serviceInstances.Index
+	if nodes.Index > idx {
+		idx = nodes.Index
+	}
+
 	// Unless we need to gather per-tenant usage go ahead and return what we have
 	if !tenantUsage {
-		return serviceInstances.Index, usage, nil
+		return idx, usage, nil
 	}
 
 	results, err := compileEnterpriseServiceUsage(ws, tx, usage)
@@ -461,7 +467,7 @@ func (s *Store) ServiceUsage(ws memdb.WatchSet, tenantUsage bool) (uint64, struc
 		return 0, structs.ServiceUsage{}, fmt.Errorf("failed services lookup: %s", err)
 	}
 
-	return serviceInstances.Index, results, nil
+	return idx, results, nil
 }
 
 func (s *Store) KVUsage() (uint64, KVUsage, error) {
